@@ -113,7 +113,11 @@ def main():
                    enable='every harness TU is compiled with -DJOHNMCFARLANE_CNL_VERIF -I/repo/include (verif.py: COMMON flags); -DJOHNMCFARLANE_CNL_VERIF_OVERFLOW_PATH=1|2 additionally selects the overflow-detection path',
                    baseline_off_cmd='sh /verif/baseline_off.sh',
                    source_commits=hook_commits[::-1], add_only=True),
-        engines=[dict(name='rc+enum+replay', path='harness/engine.cpp', serves_properties=sorted(CLAIMED),
+        engines=[dict(name='fuzz', path='harness/fuzz_engine.cpp', serves_properties=['C07', 'C10', 'C13', 'C15', 'C17'],
+                      kind_free_text='libFuzzer (clang -fsanitize=fuzzer,address,undefined with UBSan traps) over the same site tables: input bytes are decoded into (site, 64-bit words) and the site decodes the words into typed operands; the semantic oracle runs inside the target; a non-listed failure writes a replay file and aborts; used by the quick tier for short campaigns (-runs=40k..150k x 4 workers) and by the thorough tier for long ones'),
+                 dict(name='generated-programs', path='vgen/C11.py, vgen/C15.py', serves_properties=['C11', 'C15'],
+                      kind_free_text='seeded Python emitters write translation units (expression chains over static_number; literal tokens and factory calls) whose meaning is computed independently (exact rationals / Python integers); the compiled programs are the inputs'),
+                 dict(name='rc+enum+replay', path='harness/engine.cpp', serves_properties=sorted(CLAIMED),
                       kind_free_text='rapidcheck search over 64-bit word vectors decoded into typed operands per site; exhaustive enumeration of small operand planes; single-case replay. Sites (oracles) in harness/props/*.h, instantiation matrices in vgen/*.py, driver verif.py')],
         checks=checks,
         notes='All checks rebuild their site TUs from /repo/include (object cache keyed by a hash of that tree). VERIF_SEED drives every random choice. Known findings: known_findings.jsonl. See DESIGN.md.',
